@@ -103,6 +103,7 @@ class Ctx:
         self.uf_apps = {}  # name -> list of arg terms
         self.notes = []
         self.log = []  # free for harness use
+        self._cons = []  # (constraint, frozenset of free variable names) for independence slicing
 
     # ------------------------------------------------------------------ symbols
     def fresh(self, name):
@@ -116,7 +117,7 @@ class Ctx:
             return
         e = getattr(e, "e", e)
         self.assumptions.append(e)
-        self.solver.add(e)
+        self._add(e)
 
     def denominator(self, d):
         d = z3.simplify(d)
@@ -127,7 +128,9 @@ class Ctx:
         key = d.sexpr()
         if key not in self.stats.denominators:
             self.stats.denominators.add(key)
-        self.assume(d != 0)
+        # assumed in every obligation / witness query, but kept out of the branch-feasibility solver:
+        # disequalities over products make nlsat case-split and buy nothing for path enumeration
+        self.assumptions.append(d != 0)
 
     def uf(self, name, arg):
         """Application of an uninterpreted transcendental function with its local axioms."""
@@ -157,7 +160,8 @@ class Ctx:
             elif name == "sqrt":
                 # the defining axiom only for small arguments: with large polynomial arguments it makes every
                 # later feasibility query a hard NRA problem; large ones are handled by congruence (Atomizer)
-                if len(arg.sexpr()) < 300:
+                sx = arg.sexpr()
+                if len(sx) < 120 and "/" not in sx and len(free_vars(arg)) <= 2:
                     self.assume(z3.Implies(arg >= 0, z3.And(r >= 0, r * r == arg)))
                 else:
                     self.assume(r >= 0)
@@ -173,17 +177,47 @@ class Ctx:
         return r
 
     # ------------------------------------------------------------------ forking
+    def _add(self, e):
+        self._cons.append((e, None))
+        self.solver.add(e)
+
+    def _relevant(self, extra):
+        """Constraints transitively sharing a variable with the query (independence slicing, as in KLEE):
+        unsat of the slice implies unsat of the whole; a sat slice extends to the whole because the
+        remaining constraints are satisfiable on their own variables (the path is feasible so far)."""
+        vs = set()
+        for e in extra:
+            vs |= set(free_vars(e))
+        self._cons = [(c, cv if cv is not None else frozenset(free_vars(c))) for c, cv in self._cons]
+        chosen = [False] * len(self._cons)
+        changed = True
+        while changed:
+            changed = False
+            for i, (c, cv) in enumerate(self._cons):
+                if not chosen[i] and (cv & vs):
+                    chosen[i] = True
+                    vs |= cv
+                    changed = True
+        return [c for (c, _), ch in zip(self._cons, chosen) if ch]
+
     def _check(self, *extra, timeout_ms=None):
         t0 = time.time()
+        # incremental solver first (cheap when it answers quickly) ...
         self.solver.push()
-        if timeout_ms:
-            self.solver.set("timeout", timeout_ms)
+        self.solver.set("timeout", min(2000, timeout_ms or BRANCH_TIMEOUT_MS))
         for e in extra:
             self.solver.add(e)
         r = str(self.solver.check())
         self.solver.pop()
-        if timeout_ms:
-            self.solver.set("timeout", BRANCH_TIMEOUT_MS)
+        if r == "unknown":
+            # ... then the independence slice with the full budget
+            s = z3.Solver()
+            s.set("timeout", timeout_ms or BRANCH_TIMEOUT_MS)
+            for c in self._relevant(extra):
+                s.add(c)
+            for e in extra:
+                s.add(e)
+            r = str(s.check())
         self.stats.solver_s += time.time() - t0
         self.stats.branch_queries += 1
         return r
@@ -213,7 +247,7 @@ class Ctx:
         self.decisions.append(d)
         c = cond if d else z3.Not(cond)
         self.pc.append(c)
-        self.solver.add(c)
+        self._add(c)
         return d
 
     def implied(self, cond):
@@ -299,7 +333,8 @@ class Ctx:
         s.set("timeout", BRANCH_TIMEOUT_MS)
         for e in self.pc + self.assumptions + list(extra):
             s.add(e)
-        if str(s.check()) == "sat":
+        self.last_model_status = str(s.check())
+        if self.last_model_status == "sat":
             return s.model()
         return None
 
